@@ -561,6 +561,18 @@ func runC19(c *vh.Ctx) {
 		}
 	}
 
+	// ---- determinism across histories: each source once, in random orders, after other (also aborted) parses ----
+	{
+		var items []interleaveItem
+		step := len(sources)/c.N(150, 1200) + 1
+		for i := 0; i < len(sources); i += step {
+			if outs[i].first.panic_ == "" {
+				items = append(items, interleaveItem{src: sources[i].src, natives: sources[i].natives, kind: sources[i].kind, ref: outs[i].fp})
+			}
+		}
+		interleavedHistories(c, items)
+	}
+
 	// ---- immutability and sharing ----
 	sharingPart(c)
 	raceParent(c)
